@@ -80,15 +80,16 @@ def unquote : Bytes → Option (Bytes × Bytes)
 
 /-- one `; name=value` parameter (`parse_pair`, and the loop body of `content_type::parse`
 minus the lower-casing): `(name, value, rest)` -/
-def parsePair (s : Bytes) : Option (Bytes × Bytes × Bytes) :=
+def parsePairG (wsBeforeEq : Bool) (s : Bytes) : Option (Bytes × Bytes × Bytes) :=
   match s with
   | [] => none
   | c :: r =>
     if c != UInt8.ofNat Gen.pairSemicolon then none else
     let p := skipWs r
     if p.isEmpty then none else
-    let (name, e) := tokenSpan p
+    let (name, e0) := tokenSpan p
     if name.isEmpty then none else
+    let e := if wsBeforeEq then skipWs e0 else e0
     match e with
     | [] => none
     | ch :: r2 =>
@@ -104,6 +105,9 @@ def parsePair (s : Bytes) : Option (Bytes × Bytes × Bytes) :=
         else
           let (v, t) := tokenSpan p2
           if v.isEmpty then none else some (name, v, t)
+
+/-- `multipart_parser::parse_pair`: the `=` must follow the parameter name immediately -/
+def parsePair (s : Bytes) : Option (Bytes × Bytes × Bytes) := parsePairG false s
 
 /-! ## content_type::parse -/
 
@@ -124,13 +128,13 @@ def mediaTypeRest (s : Bytes) : Bytes × Bytes :=
 def mediaType (s : Bytes) : Bytes := (mediaTypeRest s).1
 
 /-- the `while(begin!=end)` parameter loop of `content_type::parse`; `std::map::insert`
-keeps the first value of a repeated key.  Note the pair syntax is `parse_pair`'s except that
-`skip_ws` is applied *before* the `;` as well. -/
+keeps the first value of a repeated key.  The pair syntax is `parse_pair`'s except that
+`skip_ws` is applied before the `;` and before the `=` as well. -/
 def ctParams : Nat → Bytes → List (Bytes × Bytes) → List (Bytes × Bytes)
   | 0, _, acc => acc
   | _, [], acc => acc
   | fuel + 1, s, acc =>
-    match parsePair (skipWs s) with
+    match parsePairG true (skipWs s) with
     | none => acc
     | some (n, v, rest) =>
       let k := lower n
@@ -552,6 +556,123 @@ def request (lim : Limits) (contentType : Bytes) (cl : Nat) (chunks : List Bytes
 
 /-- `request::get_buffer()` for a streamed (multipart) body: room offered for the next read -/
 def getBufferSize (cl read bufferSize : Nat) : Nat := min (cl - read) bufferSize
+
+/-! ### the read loop of `connection::load_content` / `on_some_content_read` -/
+
+/-- Pieces actually handed to `on_content_progress`: every read is limited by the room
+`get_buffer()` offers (`min(content_length - read_size, buffer_size)` for a streamed body, the
+whole remainder for a fully buffered one); nothing is read past `content_length`. -/
+def feed (cl bufSize : Nat) (streamed : Bool) : Nat → Nat → List Bytes → List Bytes
+  | 0, _, _ => []
+  | _, _, [] => []
+  | fuel + 1, read, c :: cs =>
+    if c.isEmpty then feed cl bufSize streamed fuel read cs else
+    let room := if streamed then min (cl - read) bufSize else cl - read
+    if room = 0 then [] else
+    let piece := c.take room
+    let rem := c.drop room
+    piece :: feed cl bufSize streamed fuel (read + piece.length) (if rem.isEmpty then cs else rem :: cs)
+
+def feedAll (cl bufSize : Nat) (streamed : Bool) (chunks : List Bytes) : List Bytes :=
+  feed cl bufSize streamed (chunks.flatten.length + chunks.length + 1) 0 chunks
+
+/-- events a `multipart_filter` sees -/
+inductive Ev
+  | newFile (name : Bytes) (size : Nat)
+  | progress (size : Nat)
+  | dataReady (size : Nat)
+  | endOfContent
+  | rawChunk (n : Nat)
+deriving DecidableEq, Repr
+
+/-- the filter callbacks made by the loop of `on_content_progress` for one chunk (same
+control flow as `wloop`; stops where `wloop` returns a status) -/
+def evLoop (cfg : Cfg) (atLen : Bool) : Nat → P → Bytes → List Ev
+  | 0, _, _ => []
+  | fuel + 1, p, buf =>
+    if buf.isEmpty then [] else
+    match consume cfg.toPCfg p buf with
+    | (.metaReady, p', rest) => .newFile p'.cur.name p'.dataRev.length :: evLoop cfg atLen fuel p' rest
+    | (.contentPartial, p', rest) =>
+      if !sizeOk cfg p'.cur.mime p'.dataRev.length then []
+      else .progress p'.dataRev.length :: evLoop cfg atLen fuel p' rest
+    | (.contentReady, p', rest) =>
+      match p'.filesRev with
+      | [] => []
+      | f :: _ =>
+        if !sizeOk cfg f.mime f.data.length then []
+        else .dataReady f.data.length :: evLoop cfg atLen fuel p' rest
+    | (.continueInput, p', rest) => evLoop cfg atLen fuel p' rest
+    | (.eof, p', rest) => if !rest.isEmpty || !atLen then [] else evLoop cfg atLen fuel p' rest
+    | _ => []
+
+/-- events over all pieces; `end` when the content is complete and accepted -/
+def evRun (cfg : Cfg) (cl : Nat) : RS → List Bytes → List Ev
+  | s, [] => if s.read == cl then [.endOfContent] else []
+  | s, c :: cs =>
+    (if c.isEmpty then [] else evLoop cfg (s.read + c.length == cl) c.length s.p c) ++
+    match progress cfg cl s c with
+    | .error _ => []
+    | .ok s' => evRun cfg cl s' cs
+
+/-- number of pieces handed to `on_content_progress` (the loop stops at the first non-zero status) -/
+def piecesUsed (cfg : Cfg) (cl : Nat) : RS → List Bytes → Nat
+  | _, [] => 0
+  | s, c :: cs =>
+    match progress cfg cl s c with
+    | .error _ => 1
+    | .ok s' => 1 + piecesUsed cfg cl s' cs
+
+/-- request input as the harness poses it. `flt`: 0 no filter, 1 raw_content_filter,
+2 multipart_filter (both installed by an asynchronous application before the body is read). -/
+structure ReqIn where
+  flt : Nat
+  contentType : Bytes
+  cl : Nat
+  lim : Limits
+  bufSize : Nat
+  query : Bytes
+  chunks : List Bytes
+
+structure ReqOut where
+  seen : Seen
+  get : List (Bytes × Bytes)
+  sizes : List Nat
+  raw : Bytes
+  events : List Ev
+
+/-- `request::prepare`: the query string; a malformed one clears `get()` -/
+def parseQuery (q : Bytes) : List (Bytes × Bytes) :=
+  let (pairs, ok) := parseForm q
+  if ok then mmOfList pairs else []
+
+def requestIO (i : ReqIn) : ReqOut :=
+  let get := parseQuery i.query
+  if i.flt == 1 then
+    -- raw filter: no parser, no buffering; limits as in on_content_start
+    let mt := mediaType i.contentType
+    let tooLong := if mt == ctMultipart then decide (i.cl > i.lim.multipartLimit) else decide (i.cl > i.lim.contentLimit)
+    if i.cl = 0 then { seen := .handled [] [], get := get, sizes := [], raw := [], events := [] }
+    else if tooLong then { seen := .refused (if mt == ctMultipart then Gen.codeMultipartTooLong else Gen.codeContentTooLong), get := get, sizes := [], raw := [], events := [] }
+    else
+      let pieces := feedAll i.cl (max i.bufSize 1) true i.chunks
+      let raw := pieces.flatten
+      let done := raw.length == i.cl
+      { seen := if done then .handled [] [] else .waiting, get := get, sizes := pieces.map (·.length), raw := raw,
+        events := pieces.map (fun c => Ev.rawChunk c.length) ++ (if done then [.endOfContent] else []) }
+  else
+    match start i.lim i.contentType i.cl with
+    | .ok (.multipart cfg) =>
+      let pieces := feedAll i.cl (max i.bufSize 1) true i.chunks
+      { seen := request i.lim i.contentType i.cl pieces, get := get,
+        sizes := (pieces.take (piecesUsed cfg i.cl {} pieces)).map (·.length), raw := [],
+        events := if i.flt == 2 then evRun cfg i.cl {} pieces else [] }
+    | .ok (.full _) =>
+      let pieces := feedAll i.cl (max i.bufSize 1) false i.chunks
+      let seen := request i.lim i.contentType i.cl pieces
+      { seen := seen, get := get, sizes := pieces.map (·.length), raw := [],
+        events := match seen with | .handled _ _ => if i.flt == 2 then [.endOfContent] else [] | _ => [] }
+    | _ => { seen := request i.lim i.contentType i.cl [], get := get, sizes := [], raw := [], events := [] }
 
 /-! ## tie to the generated constants -/
 
